@@ -224,6 +224,16 @@ func init() {
 		},
 	})
 	register(&Property{
+		ID:    "C34",
+		Units: serveUnits,
+		Runs: []Run{
+			{Pkg: "fasthttp", Func: "vhC34ResponseStream", Quick: map[string]int{"dataLen": 4}, Thorough: map[string]int{"dataLen": 8}},
+		},
+		Assume: []string{serveAssume + " (this harness additionally injects write failures)",
+			"response body streams only: an io.ReadCloser with ≤ dataLen arbitrary bytes, read one byte at a time or in bulk, declared size exact or unknown (-1), optional panic in the first or second Read, optional failure of every connection write; request body streams, SetBodyStreamWriter, Reset/Release paths without a write, and declared sizes that differ from the produced length are outside this check",
+		},
+	})
+	register(&Property{
 		ID:    "C10",
 		Units: serveUnits,
 		Runs: []Run{
